@@ -74,7 +74,7 @@ def const_or_name(v: Any) -> Sym:
         f: Sym = ("n", parts[0])
         for p_ in parts[1:]:
             f = ("a", f, p_)
-        t = ("call", f, tuple(C(a) for a in v.args), ())
+        t = ("call", f, tuple(const_or_name(a) if type(a).__name__ in ("SymName", "SymCall", "SymLambda") else C(a) for a in v.args), ())
         if parts != ["struct", "Struct"]:
             FUNCTION_REFS.add(t)        # a factory call kept in a table of callables: what it returns is a callable
         return t
@@ -406,6 +406,8 @@ def never_none(s: Sym) -> bool:
             return all(never_none(x) for x in s[2:])
         return False
     if s[0] == "call":
+        if s in FUNCTION_REFS or dotted(s[1]) in ("partial", "functools.partial"):
+            return True         # a factory call that came out of a folded table of callables / a partial application
         if s[1][0] == "n" and s[1][1] in _NOT_NONE_CALLS:
             return True
         if s[1][0] == "n" and s[1][1] in MODULE_CLASSES:
